@@ -1,5 +1,6 @@
 """Process-level (real binary, fzf --filter) layers shared by C04, C05 and C06."""
 import itertools
+import time
 
 import ptydrive as P
 import sweep
@@ -152,6 +153,33 @@ def c06_index_job(job):
         s.close()
 
 
+def c06_header_job(job):
+    """--header-lines keeps the header records while later records (longer than the reader's buffers) stream in"""
+    nhdr, biglen, rest = job
+    hdrs = ["COLUMN_HEADER_%d_0123456789" % i for i in range(nhdr)]
+    lines = hdrs + ["y" * biglen] + ["r%d" % i for i in range(rest)]
+    s = P.Session(["--no-scrollbar", "--header-lines", str(nhdr)], lines, rows=14, cols=60)
+    res = dict(evals=1, nt=1)
+    try:
+        x, ok = s.wait_state(lambda x: not x["reading"] and x["totalCount"] == 1 + rest, 20.0)
+        if not ok:
+            res["violation"] = ("interactive:item-count", {"header_lines": nhdr, "long_record": biglen, "state": None if x is None else {"total": x["totalCount"], "reading": x["reading"]}})
+            return res
+        s.post("clear-screen")  # draw the header again from what fzf holds NOW (it may have been drawn before the rest was read)
+        time.sleep(0.05)
+        scr = s.settle_screen(0.1)
+        t0 = time.time()
+        while time.time() - t0 < 5 and not all(any(h in r for r in scr) for h in hdrs):
+            s.pump(0.1)
+            scr = s.screen.text()
+        missing = [h for h in hdrs if not any(h in r for r in scr)]
+        if missing:
+            res["violation"] = ("interactive:header-record-altered", {"header_lines": nhdr, "long_record": biglen, "missing_on_screen": missing, "screen": scr})
+        return res
+    finally:
+        s.close()
+
+
 def layer_c06_cli(c):
     fzf = c.build_fzf()
     P.set_fzf(fzf, c.work + "/pty")
@@ -170,6 +198,9 @@ def layer_c06_cli(c):
     sweep.run_jobs(c, "cli-records", c06_job, jobs, deadline_s=c.pick(120, 900),
                    rule="fzf --filter '' over every stream of <= %d records from {'', a, ' b ', c<TAB>d, é} x --read0 x --header-lines 0..2 x --tail 0..3 x sorted / --no-sort (streaming) x last record terminated or not: "
                         "printed records == expected records, byte for byte" % n)
+    jobs = [(nh, big, rest) for nh in (1, 2) for big in (10, 65535, 65536, 131071, 131072, 131073, 300000) for rest in (0, 2)]
+    sweep.run_jobs(c, "header-records", c06_header_job, jobs, deadline_s=120,
+                   rule="--header-lines 1-2, then one record of 10 .. 300000 bytes (around the 64 KiB read buffer and the 128 KiB slab), then 0-2 more: the header rows on screen still show the header records")
     jobs = [(nn, tail, hl) for nn in (1, 3, 99, 100, 101, 250) for tail in (0, 1, 2, 100, 150) for hl in (0, 2)]
     sweep.run_jobs(c, "interactive-numbering", c06_index_job, jobs, deadline_s=120,
                    rule="interactive sessions: with --tail N exactly the last N records are listed and their ordinals keep counting from the start of the stream (minus the header lines)")
